@@ -339,3 +339,4 @@ def run(chk, tier):
     chk.guard('C07.b', lambda: c07.rule_emitdata(chk, prog, tier))       # every byte of a data definition comes from the initialiser list or is zero: buffers the emitter builds are filled completely before they are printed
     from props import c16
     chk.guard('C16.a', lambda: c16.rule_map(chk, prog, tier))            # the tables never consult a slot that was not written: lookups do not depend on what malloc left in a grown array
+    chk.guard('C07.a', lambda: c07.rule_parseinit(chk, prog, tier))      # the designator stack of parseinit lives on the C stack: every flag is written before it is read
